@@ -63,7 +63,7 @@ func (op Kbd) GetCPParams(arch *Arch, shared_constraint string, seq int) string 
 		}
 	}
 
-	kbdName := "u" + strconv.Itoa(seq)
+	kbdName := "k" + strconv.Itoa(seq)
 
 	for _, op := range arch.Op {
 		if op.Op_get_name() == "k2r" {
